@@ -21,6 +21,11 @@ macro_rules! export_value_harness {
         #[kani::proof]
         #[kani::unwind(20)]
         #[kani::stub(zeroize::optimization_barrier, noop_barrier)]
+        #[kani::stub(hkdf::HkdfExtract::new, crate::fasthkdf::stub_extract_new)]
+        #[kani::stub(hkdf::HkdfExtract::input_ikm, crate::fasthkdf::stub_input_ikm)]
+        #[kani::stub(hkdf::HkdfExtract::finalize, crate::fasthkdf::stub_finalize)]
+        #[kani::stub(hkdf::Hkdf::from_prk, crate::fasthkdf::stub_from_prk)]
+        #[kani::stub(hkdf::Hkdf::expand_multi_info, crate::fasthkdf::stub_expand_multi_info)]
         pub fn $name() {
             const L: usize = $l;
             let key: [u8; 16] = kani::any();
@@ -57,6 +62,11 @@ export_value_harness!(c11_l1_export_value_l8, 8);
 #[kani::proof]
 #[kani::unwind(20)]
 #[kani::stub(zeroize::optimization_barrier, noop_barrier)]
+#[kani::stub(hkdf::HkdfExtract::new, crate::fasthkdf::stub_extract_new)]
+#[kani::stub(hkdf::HkdfExtract::input_ikm, crate::fasthkdf::stub_input_ikm)]
+#[kani::stub(hkdf::HkdfExtract::finalize, crate::fasthkdf::stub_finalize)]
+#[kani::stub(hkdf::Hkdf::from_prk, crate::fasthkdf::stub_from_prk)]
+#[kani::stub(hkdf::Hkdf::expand_multi_info, crate::fasthkdf::stub_expand_multi_info)]
 pub fn c11_l2_export_frame() {
     let key: [u8; 16] = kani::any();
     let base: [u8; 12] = kani::any();
@@ -167,6 +177,11 @@ real_limit_harness!(c11_l4_limit_sha512, HkdfSha512, 64);
 #[kani::proof]
 #[kani::unwind(130)]
 #[kani::stub(zeroize::optimization_barrier, noop_barrier)]
+#[kani::stub(hkdf::HkdfExtract::new, crate::fasthkdf::stub_extract_new)]
+#[kani::stub(hkdf::HkdfExtract::input_ikm, crate::fasthkdf::stub_input_ikm)]
+#[kani::stub(hkdf::HkdfExtract::finalize, crate::fasthkdf::stub_finalize)]
+#[kani::stub(hkdf::Hkdf::from_prk, crate::fasthkdf::stub_from_prk)]
+#[kani::stub(hkdf::Hkdf::expand_multi_info, crate::fasthkdf::stub_expand_multi_info)]
 pub fn c11_l5_exportonly_export() {
     let exp: [u8; 8] = kani::any();
     let s = ctx_s_from_parts::<ExportOnlyAead, LinKdf, M>(&[], &[0u8; 128], &exp, 0, false);
